@@ -3,6 +3,7 @@ MBFBig.tla (MBF decode), trace spec C04_Trace (the stated bounds, evaluated with
 import time
 from ..session import Sess
 from .. import core
+from ..bigval import validate_parallel
 
 LEVEL = 'exploration'
 META = {
@@ -217,8 +218,8 @@ def run(ctx):
             e['detail'] = repr(r[:2])[:200]
         events.append(e)
 
-    n_direct = ctx.pick(24000, 400000)
-    n_basic = ctx.pick(1500, 20000)
+    n_direct = ctx.pick(14000, 300000)
+    n_basic = ctx.pick(800, 12000)
     for i in range(n_direct):
         op = OPS[i % 4]
         cls, a, b = gen_pair(rng, op)
@@ -247,14 +248,9 @@ def run(ctx):
     for i in (0, 1, 2, 3, len(events) // 2, len(events) - 1):
         ctx.sample({k: v for k, v in events[i].items()})
     # internal outcomes are rejections by themselves (no spec action explains an escaping exception)
-    batch = ctx.pick(40000, 60000)
     clean = [{'op': e['op'], 'a': e['a'], 'b': e['b'], 'k': e['k'] if e['k'] != 'internal' else 'err',
               'code': e['code'] if e['k'] != 'internal' else -1, 'r': e['r']} for e in events]
-    verdicts = []
-    for off in range(0, len(clean), batch):
-        part = ctx.validate('C04_Trace', clean[off:off + batch])
-        verdicts += [(i + off, c) for (i, c) in part]
-        ctx.cov['traces_validated_against_impl'] += 1
+    verdicts = validate_parallel(ctx, 'C04_Trace', clean, jobs=ctx.pick(2, 8))
     clauses = {}
     for (i, clause) in verdicts:
         e = events[i - 1]
